@@ -29,6 +29,9 @@ LastMin(n, s) == IF Len(s) <= n THEN s ELSE SubSeq(s, Len(s) - n + 1, Len(s))
 \* s occurs in t as a contiguous run
 IsRun(s, t) == s = <<>> \/ \E i \in 0..(Len(t) - Len(s)) : SubSeq(t, i + 1, i + Len(s)) = s
 
+\* s is the end of t (the report's "last client / server buffer" panels at quiescence; empty when nothing was dumped)
+EndsWith(t, s) == Len(s) <= Len(t) /\ s = SubSeq(t, Len(t) - Len(s) + 1, Len(t))
+
 VARIABLES l, bad, drift
 
 Clean(chars) == \A i \in 1..Len(chars) : chars[i] # 60 /\ chars[i] # 62
@@ -39,6 +42,7 @@ Ok(e, raws) ==
     /\ e.report_ok
     /\ Len(e.report_msgs) <= 20 /\ IsRun(e.report_msgs, raws)  \* only relayed messages, in order
     /\ Clean(e.slot_client) /\ Clean(e.slot_server) /\ Clean(e.slot_messages)
+    /\ EndsWith(e.c2s, e.dump_client) /\ EndsWith(e.s2c, e.dump_server)   \* the "last buffer" panels show relayed bytes only: the end of each stream
 
 \* L1: at quiescence the report shows exactly the last 20
 Exact(e, raws) == e.report_msgs = LastMin(20, raws)
